@@ -105,6 +105,8 @@ pub struct Sim<P: Protocol> {
     pub alias: HashMap<SocketAddr, u16>,
     /// address translation: datagrams of this node arrive with another source address
     pub seen_as: HashMap<u16, SocketAddr>,
+    /// destination-dependent translation (hair-pinning): what node `from` sends to `dst` arrives with this source
+    pub hairpin: HashMap<(u16, SocketAddr), SocketAddr>,
 }
 
 pub fn base_config(mode: Mode) -> Config {
@@ -135,6 +137,7 @@ impl<P: Protocol> Sim<P> {
             dropped_by_net: 0,
             alias: HashMap::new(),
             seen_as: HashMap::new(),
+            hairpin: HashMap::new(),
         }
     }
 
@@ -204,7 +207,10 @@ impl<P: Protocol> Sim<P> {
                 None => return, // nobody listens there
             },
         };
-        let src = self.seen_as.get(&d.from).copied().unwrap_or_else(|| addr_of(d.from));
+        let src = match self.hairpin.get(&(d.from, d.to)) {
+            Some(a) => *a,
+            None => self.seen_as.get(&d.from).copied().unwrap_or_else(|| addr_of(d.from)),
+        };
         if self.faults.silent.contains(&d.from) || self.faults.cut.contains(&(d.from, to)) {
             self.dropped_by_net += 1;
             return;
